@@ -21,7 +21,11 @@ class C11Spec(explore.Spec):
 
     def configs(self, tier):
         versions = ("1.4", "2.2") if tier == "quick" else ("1.4", "1.5", "2.0", "2.1", "2.2")
-        return [{"version": v, "cb": None} for v in versions]
+        out = [{"version": v, "cb": None} for v in versions]
+        # the gateway's own persistence (no event callback): what the periodic save writes must load back to the
+        # current state, also for changes that arrive after the first save
+        out += [{"version": "2.2", "cb": None, "persistence": fmt, "depth": 3} for fmt in ("json", "pickle")]
+        return out
 
     def alphabet(self, cfg):
         v = cfg["version"]
@@ -53,6 +57,22 @@ class C11Spec(explore.Spec):
         viols = []
         original = world.tree()
         monitor.stats["states_round_tripped"] += 1
+        if world.persistence:
+            from .c15 import load_copy
+
+            obs = world.apply(("tick",))
+            monitor.stats["own_periodic_saves"] += 1
+            rep = {"kind": "history+probe", "check": PROP, "cfg": cfg, "history": list(hist)}
+            if obs.exc is not None:
+                return [Violation(PROP, f"periodic-save-raises|{world.persistence}|{obs.exc['type']}", f"periodic save raised {obs.exc['type']}: {obs.exc['text']}", rep)]
+            try:
+                got = load_copy(world.dir, world.persistence)
+            except Exception as exc:  # pylint: disable=broad-except
+                return [Violation(PROP, f"load-raises|{world.persistence}|{type(exc).__name__}", f"loading what the periodic save wrote raised {type(exc).__name__}", rep)]
+            if got != original:
+                cls, text = diff_trees(original, got)
+                return [Violation(PROP, f"periodic-save-round-trip|{world.persistence}|{cls}", f"what the gateway's periodic save wrote does not load back to the current state: {text}", rep)]
+            return []
         if any(s.new_state or s.queue or s.reboot for s in world.gw.sensors.values()):
             monitor.stats["states_with_transient_data"] += 1
         restored = {}
